@@ -168,10 +168,16 @@ fn dce_block_with_live(
                 out.push(ast::Stmt::Return { expr });
             }
             ast::Stmt::Loop { body } => {
-                // the back edge: whatever the body reads may be read by the next iteration
+                // the back edge: whatever is live at the top of the body is live at its bottom.
+                // Iterate to the fixpoint (what a dead statement of the body reads is not live).
                 let mut loop_live = live.clone();
-                loop_live.extend(free_vars_in_block(&body));
-                let (body_block, body_live_in) = dce_block_with_live(body, &loop_live);
+                let (body_block, body_live_in) = loop {
+                    let (block, live_in) = dce_block_with_live(body.clone(), &loop_live);
+                    if live_in.iter().all(|v| loop_live.contains(v)) {
+                        break (block, live_in);
+                    }
+                    loop_live.extend(live_in);
+                };
                 live.extend(body_live_in);
                 needs_decl.extend(assigned_vars_in_block(&body_block));
                 out.push(ast::Stmt::Loop { body: body_block });
